@@ -43,7 +43,7 @@ ASSUME ~WfBer(With(Set0, <<2>>, "indef")) /\ ~WfLen(With(Set0, <<2>>, "indef")).
 ASSUME WfBer(With(Set0, <<2>>, "pad1"))
 \* 8.7.3: the OCTET STRING inside the wrapper as two segments, the second one segmented again
 ASSUME SerBer(Seg(Seg(Set0, <<1, 1>>, 1), <<1, 1, 2>>, 2)) =
-         <<49, 19, 97, 11, 36, 9, 4, 1, 170, 36, 4, 4, 2, 187, 204, 4, 0, 128, 1, 5, 194, 1, 255>>
+         <<49, 21, 97, 13, 36, 11, 4, 1, 170, 36, 6, 4, 2, 187, 204, 4, 0, 128, 1, 5, 194, 1, 255>>
 ASSUME Back(Seg(Seg(Set0, <<1, 1>>, 1), <<1, 1, 2>>, 2), Strip(Set0))
 \* 8.6.4: BIT STRING segments, only the last one carries the unused bits
 ASSUME SerBer(Bits0) = <<3, 3, 4, 15, 16>>
